@@ -79,22 +79,45 @@ theorem QConn.has_up {am qm pm : Nat} {nas : Nas} {s i : Nat} (h : QConn am qm p
   | own hm _ _ _ _ _ => exact List.any_eq_true.mpr ⟨_, hm, by simp⟩
   | via hm _ _ _ _ _ => exact List.any_eq_true.mpr ⟨_, hm, by simp⟩
 
-/-- The connections of `nas` are *separate*: the places of one connection are distinct, as many
-as the upstream SE has a-set DOF, and two different upstream SEs of one SE have no place in
-common.  (Decidable on a given dictionary; it holds when every downstream DOF is the image of at
-most one upstream a-set DOF.) -/
-structure Separate (am : Nat) (nas : Nas) : Prop where
+/-- the `k`-th a-set DOF of SE `seup` carries a flag: `seup` flags it itself (a q-set DOF; an a-set
+scalar point when `seup` has no q-set DOF), or its row in the table of `seup` is connected to a
+q-set DOF further upstream -/
+def Flagged (am qm pm : Nat) (nas : Nas) (seup k : Nat) : Prop :=
+  ∃ usetup, lookupD nas.uset seup = .ok usetup ∧
+    ((∃ qup0, qupOwn am qm pm usetup = .ok qup0 ∧ qup0[k]? = some true) ∨
+     (∃ j, (aRows am usetup)[k]? = some j ∧ QConn am qm pm nas seup j))
+
+/-- `QConn`, one level unfolded: row `i` is the place of a flagged a-set DOF of an upstream SE -/
+theorem QConn_iff (am qm pm : Nat) (nas : Nas) (sedn i : Nat) :
+    QConn am qm pm nas sedn i ↔ ∃ (seup : Nat) (idx : List Nat) (k : Nat), (seup, sedn) ∈ nas.selist ∧
+      linkIdx nas (seup, sedn) = some idx ∧ idx[k]? = some i ∧ Flagged am qm pm nas seup k := by
+  constructor
+  · intro h
+    cases h with
+    | own hm hli hk h1 hq0 hv => exact ⟨_, _, _, hm, hli, hk, _, h1, Or.inl ⟨_, hq0, hv⟩⟩
+    | via hm hli hk h1 hj hq => exact ⟨_, _, _, hm, hli, hk, _, h1, Or.inr ⟨_, hj, hq⟩⟩
+  · rintro ⟨seup, idx, k, hm, hli, hk, usetup, h1, (⟨qup0, hq0, hv⟩ | ⟨j, hj, hq⟩)⟩
+    · exact QConn.own hm hli hk h1 hq0 hv
+    · exact QConn.via hm hli hk h1 hj hq
+
+/-- The connections of `nas` are *separate*: the places of one connection are distinct and as
+many as the upstream SE has a-set DOF, and where two different upstream SEs of one SE have a place
+in common (a boundary grid that both are attached to) they flag it alike.  (`separateB` is a
+decidable sufficient test: common places that cannot carry a flag on either side.) -/
+structure Separate (am qm pm : Nat) (nas : Nas) : Prop where
   nodup : ∀ r ∈ nas.selist, ∀ idx, linkIdx nas r = some idx → idx.Nodup
   shape : ∀ r ∈ nas.selist, ∀ idx u, linkIdx nas r = some idx → lookupD nas.uset r.1 = .ok u →
     idx.length = (aRows am u).length
-  apart : ∀ r ∈ nas.selist, ∀ r' ∈ nas.selist, r.2 = r'.2 → r.1 ≠ r'.1 → ∀ idx idx',
-    linkIdx nas r = some idx → linkIdx nas r' = some idx' → ∀ i ∈ idx, i ∉ idx'
+  agree : ∀ r ∈ nas.selist, ∀ r' ∈ nas.selist, r.2 = r'.2 → r.1 ≠ r'.1 →
+    ∀ (idx idx' : List Nat) (k k' i : Nat), linkIdx nas r = some idx → linkIdx nas r' = some idx' →
+      idx[k]? = some i → idx'[k']? = some i →
+      (Flagged am qm pm nas r.1 k ↔ Flagged am qm pm nas r'.1 k')
 
 /-- **`upqsetpv` at full depth.**  Whenever the call returns (any fuel; any number of upstream SEs
 per SE; any depth; `maps` of every accepted form; CSUPER and SECONCT type connections) on a
 dictionary with separate connections, the flag of row `i` is `True` iff row `i` is connected to
 an upstream q-set DOF (`QConn`).  Proved by induction on the recursion, i.e. on the SE tree. -/
-theorem upqsetpv_spec (am qm pm : Nat) (nas : Nas) (hsep : Separate am nas) :
+theorem upqsetpv_spec (am qm pm : Nat) (nas : Nas) (hsep : Separate am qm pm nas) :
     ∀ (fuel sedn : Nat) (out : List Bool), upqsetpv am qm pm nas fuel sedn = .ok out →
       ∀ i, out[i]? = some true ↔ QConn am qm pm nas sedn i
   | 0, _, _, h => by cases h
@@ -122,13 +145,37 @@ theorem upqsetpv_spec (am qm pm : Nat) (nas : Nas) (hsep : Separate am nas) :
           intro c u hcu x hx
           obtain ⟨u', hu', hl⟩ := upqsetpv_length' hx
           rw [lookupD_inj hcu hu']; exact hl
+        -- the flags of an upstream SE, as computed, are the flags of the specification
+        have hflag : ∀ c usetup qup, lookupD nas.uset c = .ok usetup →
+            upqQup am qm pm nas (upqsetpv am qm pm nas fuel) c usetup = .ok qup →
+            ∀ k : Nat, qup[k]? = some true ↔ Flagged am qm pm nas c k := by
+          intro c usetup qup h1 h4 k
+          obtain ⟨qup0, hq0, _, hcase⟩ := upqQup_ok (hlen c usetup h1) h4
+          rcases hcase with ⟨hno, heq⟩ | ⟨_, qup2, hr2, hiff⟩
+          · rw [heq]
+            constructor
+            · intro hv; exact ⟨usetup, h1, Or.inl ⟨qup0, hq0, hv⟩⟩
+            · rintro ⟨u', h1', (⟨q0', hq0', hv⟩ | ⟨j, _, hq⟩)⟩
+              · rw [← lookupD_inj h1 h1', hq0] at hq0'
+                cases hq0'
+                exact hv
+              · rw [hq.has_up] at hno; cases hno
+          · rw [hiff k]
+            constructor
+            · rintro (hv | ⟨j, hj, hv2⟩)
+              · exact ⟨usetup, h1, Or.inl ⟨qup0, hq0, hv⟩⟩
+              · exact ⟨usetup, h1, Or.inr ⟨j, hj, (ih c qup2 hr2 j).mp hv2⟩⟩
+            · rintro ⟨u', h1', (⟨q0', hq0', hv⟩ | ⟨j, hj, hq⟩)⟩
+              · rw [← lookupD_inj h1 h1', hq0] at hq0'
+                cases hq0'
+                exact Or.inl hv
+              · rw [← lookupD_inj h1 h1'] at hj
+                exact Or.inr ⟨j, hj, (ih c qup2 hr2 j).mpr hq⟩
         -- an assignment `some (idx, v)` of the loop: `v` are the flags of the upstream SE
         have hsome : ∀ c ∈ (nas.selist.filter fun r => r.2 = sedn).map (·.1), ∀ idx v,
             upqLink am qm pm nas (upqsetpv am qm pm nas fuel) sedn usetdn c = .ok (some (idx, v)) →
-            c ≠ sedn ∧ linkIdx nas (c, sedn) = some idx ∧ ∃ usetup,
-              lookupD nas.uset c = .ok usetup ∧
-              upqQup am qm pm nas (upqsetpv am qm pm nas fuel) c usetup = .ok v ∧
-              idx.length = v.length ∧ idx.length = (aRows am usetup).length := by
+            c ≠ sedn ∧ linkIdx nas (c, sedn) = some idx ∧ idx.length = v.length ∧
+            ∀ k : Nat, v[k]? = some true ↔ Flagged am qm pm nas c k := by
           intro c hc idx v hl
           rcases upqLink_ok hl with ⟨_, hn⟩ | ⟨hne, usetup, dnids, maps, qup, h1, h2, h3, h4, hcase⟩
           · cases hn
@@ -142,14 +189,14 @@ theorem upqsetpv_spec (am qm pm : Nat) (nas : Nas) (hsep : Separate am nas) :
               have hqlen : qup.length = idx.length := by rw [hql, qupOwn_length hq0, hsh]
               have := bcast_same h6 hqlen
               subst this
-              exact ⟨hne, hli, usetup, h1, h4, hqlen.symm, hsh⟩
+              exact ⟨hne, hli, hqlen.symm, hflag c usetup _ h1 h4⟩
         have hn0 : (List.replicate usetdn.length false).length = usetdn.length := List.length_replicate
         -- the assignments are well shaped
         have hgood : ∀ w ∈ ws, GoodWrite usetdn.length w := by
           intro w hw idx v he
           subst he
           obtain ⟨c, hc, hl⟩ := forall₂_mem_right hws hw
-          obtain ⟨hne, hli, usetup, _, _, hl2, _⟩ := hsome c hc idx v hl
+          obtain ⟨hne, hli, hl2, _⟩ := hsome c hc idx v hl
           obtain ⟨_, ud, dn, mp, hud, _, _, hidx⟩ := linkIdx_some hli
           rw [lookupD_inj hu hud]
           exact ⟨hsep.nodup _ (hrow c hc) idx hli, hl2, upqIdx_lt hidx⟩
@@ -161,8 +208,8 @@ theorem upqsetpv_spec (am qm pm : Nat) (nas : Nas) (hsep : Separate am nas) :
           subst he; subst he'
           obtain ⟨c, hc, hl⟩ := forall₂_mem_right hws hw
           obtain ⟨c', hc', hl'⟩ := forall₂_mem_right hws hw'
-          obtain ⟨_, hli, _⟩ := hsome c hc idx v hl
-          obtain ⟨_, hli', _⟩ := hsome c' hc' idx' v' hl'
+          obtain ⟨_, hli, hlv, hfl⟩ := hsome c hc idx v hl
+          obtain ⟨_, hli', hlv', hfl'⟩ := hsome c' hc' idx' v' hl'
           by_cases hcc : c = c'
           · subst hcc
             rw [hl] at hl'
@@ -173,71 +220,44 @@ theorem upqsetpv_spec (am qm pm : Nat) (nas : Nas) (hsep : Separate am nas) :
             obtain ⟨l2, e2⟩ := List.getElem?_eq_some_iff.mp hk'
             have : k = k' := (List.Nodup.getElem_inj_iff hnd).mp (e1.trans e2.symm)
             rw [this]
-          · exact absurd (List.mem_of_getElem? hk')
-              (hsep.apart _ (hrow c hc) _ (hrow c' hc') rfl hcc idx idx' hli hli' i (List.mem_of_getElem? hk))
+          · have hag := hsep.agree _ (hrow c hc) _ (hrow c' hc') rfl hcc idx idx' k k' i hli hli' hk hk'
+            have hk1 : k < v.length := by rw [← hlv]; exact (List.getElem?_eq_some_iff.mp hk).1
+            have hk2 : k' < v'.length := by rw [← hlv']; exact (List.getElem?_eq_some_iff.mp hk').1
+            rw [List.getElem?_eq_getElem hk1, List.getElem?_eq_getElem hk2]
+            have e1 := hfl k
+            have e2 := hfl' k'
+            rw [List.getElem?_eq_getElem hk1] at e1
+            rw [List.getElem?_eq_getElem hk2] at e2
+            simp only [Option.some.injEq] at e1 e2
+            have hiff : v[k] = true ↔ v'[k'] = true := e1.trans (hag.trans e2.symm)
+            exact congrArg some (Bool.eq_iff_iff.mpr hiff)
         intro i
-        rw [hout, foldl_applyLink_true ws _ hn0 hgood hagree i]
+        rw [hout, foldl_applyLink_true ws _ hn0 hgood hagree i, QConn_iff]
         have hfalse : ¬ ((List.replicate usetdn.length false)[i]? = some true) := by
           rw [List.getElem?_replicate]; split <;> simp
         constructor
         · rintro (⟨w, hw, idx, v, k, he, hk, hv⟩ | ⟨_, hf⟩)
           · subst he
             obtain ⟨c, hc, hl⟩ := forall₂_mem_right hws hw
-            obtain ⟨hne, hli, usetup, h1, h4, _, hsh⟩ := hsome c hc idx v hl
-            obtain ⟨qup0, hq0, hql, hcase⟩ := upqQup_ok (hlen c usetup h1) h4
-            rcases hcase with ⟨_, heq⟩ | ⟨_, qup2, hr2, hiff⟩
-            · rw [heq] at hv
-              exact QConn.own (hrow c hc) hli hk h1 hq0 hv
-            · rcases (hiff k).mp hv with h0 | ⟨j, hj, hv2⟩
-              · exact QConn.own (hrow c hc) hli hk h1 hq0 h0
-              · exact QConn.via (hrow c hc) hli hk h1 hj ((ih c qup2 hr2 j).mp hv2)
+            obtain ⟨_, hli, _, hfl⟩ := hsome c hc idx v hl
+            exact ⟨c, idx, k, hrow c hc, hli, hk, (hfl k).mp hv⟩
           · exact absurd hf hfalse
-        · intro hq
+        · rintro ⟨seup, idx, k, hm, hli, hk, hfl⟩
           left
-          -- the `selist` row, the places, the table of the upstream SE and the place index `k`
-          have key : ∀ (seup k : Nat) (idx : List Nat) (usetup : List Row),
-              (seup, sedn) ∈ nas.selist → linkIdx nas (seup, sedn) = some idx → idx[k]? = some i →
-              lookupD nas.uset seup = .ok usetup →
-              (∀ qup, upqQup am qm pm nas (upqsetpv am qm pm nas fuel) seup usetup = .ok qup →
-                qup[k]? = some true) → ∃ w ∈ ws, WritesTrue w i := by
-            intro seup k idx usetup hm hli hk h1 hflag
-            have hc : seup ∈ (nas.selist.filter fun r => r.2 = sedn).map (·.1) :=
-              List.mem_map.mpr ⟨(seup, sedn), List.mem_filter.mpr ⟨hm, by simp⟩, rfl⟩
-            obtain ⟨w, hw, hl⟩ := forall₂_mem_left hws hc
-            obtain ⟨hne, ud, dn, mp, hud, hdn, hmp, hidx⟩ := linkIdx_some hli
-            rcases upqLink_ok hl with ⟨he, _⟩ | ⟨_, usetup', dnids, maps, qup, h1', h2, h3, h4, hcase⟩
-            · exact absurd he hne
-            · have e1 := lookupD_inj h1 h1'
-              subst e1
-              have hkq := hflag qup h4
-              rcases hcase with ⟨hf, _⟩ | ⟨_, idx', v', h5, h6, he⟩
-              · rw [any_of_get hkq] at hf; cases hf
-              · subst he
-                obtain ⟨_, hli', usetup'', h1'', h4', _, _⟩ := hsome seup hc idx' v' hl
-                rw [hli] at hli'
-                cases hli'
-                have e2 := lookupD_inj h1 h1''
-                subst e2
-                rw [h4] at h4'
-                cases h4'
-                exact ⟨_, hw, idx, qup, k, rfl, hk, hkq⟩
-          cases hq with
-          | own hm hli hk h1 hq0 hv =>
-              refine key _ _ _ _ hm hli hk h1 ?_
-              intro qup h4
-              obtain ⟨qup0', hq0', _, hcase⟩ := upqQup_ok (hlen _ _ h1) h4
-              rw [hq0] at hq0'
-              cases hq0'
-              rcases hcase with ⟨_, heq⟩ | ⟨_, qup2, _, hiff⟩
-              · rw [heq]; exact hv
-              · exact (hiff _).mpr (Or.inl hv)
-          | via hm hli hk h1 hj hqc =>
-              refine key _ _ _ _ hm hli hk h1 ?_
-              intro qup h4
-              obtain ⟨qup0', _, _, hcase⟩ := upqQup_ok (hlen _ _ h1) h4
-              rcases hcase with ⟨hno, _⟩ | ⟨_, qup2, hr2, hiff⟩
-              · rw [hqc.has_up] at hno; cases hno
-              · exact (hiff _).mpr (Or.inr ⟨_, hj, (ih _ qup2 hr2 _).mpr hqc⟩)
+          have hc : seup ∈ (nas.selist.filter fun r => r.2 = sedn).map (·.1) :=
+            List.mem_map.mpr ⟨(seup, sedn), List.mem_filter.mpr ⟨hm, by simp⟩, rfl⟩
+          obtain ⟨w, hw, hl⟩ := forall₂_mem_left hws hc
+          obtain ⟨hne, ud, dn, mp, hud, hdn, hmp, hidx⟩ := linkIdx_some hli
+          rcases upqLink_ok hl with ⟨he, _⟩ | ⟨_, usetup, dnids, maps, qup, h1, h2, h3, h4, hcase⟩
+          · exact absurd he hne
+          · have hkq := (hflag seup usetup qup h1 h4 k).mpr hfl
+            rcases hcase with ⟨hf, _⟩ | ⟨_, idx', v', h5, h6, he⟩
+            · rw [any_of_get hkq] at hf; cases hf
+            · subst he
+              obtain ⟨_, hli', _, hfl'⟩ := hsome seup hc idx' v' hl
+              rw [hli] at hli'
+              cases hli'
+              exact ⟨_, hw, idx, v', k, rfl, hk, (hfl' k).mpr hfl⟩
 
 /-! ## the connection used by `upqsetpv` is the vector of `upasetpv` -/
 
@@ -336,23 +356,26 @@ theorem upasetpv_perm (nas : Nas) (seup sedn : Nat) (usetdn : List Row) (dnids :
 
 /-! ## a decidable test for `Separate`, and a three-level example -/
 
-/-- `Separate`, as a computation on the dictionary -/
-def separateB (am : Nat) (nas : Nas) : Bool :=
-  (nas.selist.all fun r =>
-    match linkIdx nas r with
-    | none => true
-    | some idx =>
-        decide idx.Nodup &&
-        (match lookupD nas.uset r.1 with
-          | .ok u => idx.length == (aRows am u).length
-          | .error _ => true)) &&
-  (nas.selist.all fun r => nas.selist.all fun r' =>
-    (r.2 != r'.2 || r.1 == r'.1) ||
-    (match linkIdx nas r, linkIdx nas r' with
-      | some idx, some idx' => idx.all fun i => !idx'.contains i
-      | _, _ => true))
+/-- a DOF that carries a flag can carry one (`canFlag`) -/
+theorem canFlag_of_flagged {am qm pm : Nat} {nas : Nas} {c k : Nat} (h : Flagged am qm pm nas c k) :
+    canFlag am qm pm nas c k = true := by
+  obtain ⟨u, hu, hcase⟩ := h
+  unfold canFlag
+  rw [hu]
+  simp only [Bool.or_eq_true]
+  rcases hcase with ⟨q0, hq0, hv⟩ | ⟨j, hj, hq⟩
+  · left
+    simp [hq0, hv]
+  · right
+    rw [hj]
+    simp only
+    obtain ⟨seup, idx, k', hm, hli, hk, _⟩ := (QConn_iff _ _ _ _ _ _).mp hq
+    refine List.any_eq_true.mpr ⟨(seup, c), hm, ?_⟩
+    rw [hli]
+    simp [List.mem_of_getElem? hk]
 
-theorem separate_of_check (am : Nat) (nas : Nas) (h : separateB am nas = true) : Separate am nas := by
+theorem separate_of_check (am qm pm : Nat) (nas : Nas) (h : separateB am qm pm nas = true) :
+    Separate am qm pm nas := by
   unfold separateB at h
   rw [Bool.and_eq_true, List.all_eq_true, List.all_eq_true] at h
   obtain ⟨ha, hb⟩ := h
@@ -367,17 +390,24 @@ theorem separate_of_check (am : Nat) (nas : Nas) (h : separateB am nas = true) :
     rw [hl] at this
     simp only [Bool.and_eq_true, hu, beq_iff_eq] at this
     exact this.2
-  · intro r hr r' hr' h2 h1 idx idx' hl hl' i hi
+  · intro r hr r' hr' h2 h1 idx idx' k k' i hl hl' hk hk'
     have := hb r hr
     rw [List.all_eq_true] at this
     have := this r' hr'
     rw [hl, hl'] at this
-    simp only [Bool.or_eq_true, bne_iff_ne, ne_eq, beq_iff_eq, List.all_eq_true, Bool.not_eq_true',
-      List.contains_eq_mem, decide_eq_false_iff_not] at this
+    simp only [Bool.or_eq_true, bne_iff_ne, ne_eq, beq_iff_eq] at this
     rcases this with (h | h) | h
     · exact absurd h2 h
     · exact absurd h h1
-    · exact h i hi
+    · rw [List.all_eq_true] at h
+      have := h k (List.mem_range.mpr (List.getElem?_eq_some_iff.mp hk).1)
+      rw [List.all_eq_true] at this
+      have := this k' (List.mem_range.mpr (List.getElem?_eq_some_iff.mp hk').1)
+      rw [hk, hk'] at this
+      simp only [bne_self_eq_false, Bool.false_or, Bool.and_eq_true, Bool.not_eq_true'] at this
+      constructor
+      · intro hf; rw [canFlag_of_flagged hf] at this; cases this.1
+      · intro hf; rw [canFlag_of_flagged hf] at this; cases this.2
 
 /-- three levels and two branches: SE 30 (a boundary grid and a q-set scalar point 91) is upstream
 of SE 10, where its scalar point comes first in the table (`maps` re-orders); SE 10 (own q-set
@@ -401,7 +431,7 @@ def treeNas : Nas where
 
 theorem treeNas_run : upqsetpv (mask .a) (mask .q) (mask .p) treeNas 5 0 = .ok treeOut := by decide
 
-example : Separate (mask .a) treeNas := separate_of_check _ _ (by decide)
+example : Separate (mask .a) (mask .q) (mask .p) treeNas := separate_of_check _ _ _ _ (by decide)
 
 example : Acyclic treeNas.selist :=
   ⟨fun s => if s = 30 then 0 else if s = 0 then 2 else 1, by decide⟩
@@ -409,10 +439,10 @@ example : Acyclic treeNas.selist :=
 /-- non-vacuity of `upqsetpv_spec` / `QConn`: row 6 of the residual's table (scalar point 91) is
 connected through two levels (`via` SE 10, then `own` in SE 30, across the re-ordering `maps`) -/
 example : QConn (mask .a) (mask .q) (mask .p) treeNas 0 6 :=
-  (upqsetpv_spec _ _ _ treeNas (separate_of_check _ _ (by decide)) 5 0 treeOut treeNas_run 6).mp (by decide)
+  (upqsetpv_spec _ _ _ treeNas (separate_of_check _ _ _ _ (by decide)) 5 0 treeOut treeNas_run 6).mp (by decide)
 
 example : ¬ QConn (mask .a) (mask .q) (mask .p) treeNas 0 7 := fun h =>
-  absurd ((upqsetpv_spec _ _ _ treeNas (separate_of_check _ _ (by decide)) 5 0 treeOut treeNas_run 7).mpr h)
+  absurd ((upqsetpv_spec _ _ _ treeNas (separate_of_check _ _ _ _ (by decide)) 5 0 treeOut treeNas_run 7).mpr h)
     (by decide)
 
 /-- the places of the connection 30 -> 10 are the vector `upasetpv(nas, 30)`: the scalar point, last
